@@ -1280,3 +1280,6 @@ def replay(ctx, data):
         print("impl  :", i)
         return m == i
     return False
+
+
+DRIVER_OPS = ["encd"]   # per-area driver executable(s) this check talks to (built before any worker is forked)
